@@ -2,6 +2,8 @@
 
 package lossy
 
+import "github.com/deepteams/webp/internal/bitio"
+
 // Add-only exports for /verif (properties C04, C06). Not part of the package API.
 
 // VerifDecodeFrame decodes a VP8 key frame and returns copies of the cropped
@@ -144,4 +146,25 @@ func VerifFilterStrengths(simple bool, level, sharpness int, useLFDelta bool, re
 		}
 	}
 	return
+}
+
+// VerifGetCoeffs runs the hand-inlined coefficient reader getCoeffsInline on a fresh BoolReader
+// over data, after a warm-up of GetBit reads with the given probabilities (to vary the reader
+// state), with the band probabilities of one block type given as probs[band][ctx][i]. It returns
+// the end-of-block position, the 16 coefficients written, and the reader state afterwards.
+func VerifGetCoeffs(data []byte, warm []uint8, probs [NumBands][NumCTX][NumProbas]uint8, ctx, dq0, dq1, n int) (nz int, out [16]int16, value uint64, rng uint32, bits int, eof bool) {
+	br := bitio.NewBoolReader(data)
+	for _, p := range warm {
+		br.GetBit(p)
+	}
+	var bp [NumBands]BandProbas
+	for b := 0; b < NumBands; b++ {
+		bp[b].Probas = probs[b]
+	}
+	var bands [17]*BandProbas
+	for i := 0; i < 17; i++ {
+		bands[i] = &bp[KBands[i]]
+	}
+	nz = getCoeffsInline(br, &bands, ctx, dq0, dq1, n, out[:])
+	return nz, out, br.Value, br.Range, br.Bits, br.EOF()
 }
